@@ -245,6 +245,15 @@ DROPPED = ["docstrings", "comments", "type annotations", "log.* calls", "render(
            "integer width (int tensors are mathematical integers, A2)"]
 
 
+BASE_ASSUMPTIONS = [
+    "A1 float tensors are mathematical reals (no rounding, no overflow, no NaN); float32 boundary effects are left to the bounded stand-ins",
+    "A2 integer tensors and Python ints are mathematical integers (no 64-bit wrap-around)",
+    "A12 Python semantics of the interpreted subset: left-to-right evaluation, no exceptions other than the modelled asserts / well-formedness failures / KeyError of plain dicts; device placement, logging, typing and docstrings dropped",
+    "torch / tensordict / einops operations behave as stated in the tvc operation table (documented semantics; see trusted_base for the operations this run used)",
+    "collaborators passed to a unit as stubs (environment, policy, encoder, attention kernel, DataLoader, samplers) satisfy the contract written in that unit; they are proved, where they are repository code, by their own units",
+    "uninterpreted real functions exp / log / sqrt / tanh / sigmoid / cos / sin with only the axioms instantiated in the units (positivity of exp and sqrt, cos^2 + sin^2 = 1); Euclidean norm: non-negative, zero iff zero, even (exact on the concrete pass)",
+    "+/-inf literals are a constant INF above every input value, compared but never used in arithmetic (A1b)",
+]
 CROSS = [0]   # clauses re-examined on small concrete instances by the thorough tier (sum over units)
 
 
@@ -281,7 +290,7 @@ def make_evidence(prop, tier, seed, n_obl, n_dis, by_backend, solver_time, sampl
         cov["distinct_nontrivial"] = sum(s.get("distinct", s.get("cases", 0)) for s in st_results)
         cov["rule"] = "; ".join(f"{s['name']}: {s.get('rule','')}" for s in st_results)
     return {"property_id": prop, "tier": tier, "seed": seed, "level": level, "coverage": cov,
-            "assumptions": sorted(assumptions) + meta.get("assumptions", []), "wall_s": round(wall, 2), "violations": nviol}
+            "assumptions": BASE_ASSUMPTIONS + sorted(assumptions) + meta.get("assumptions", []), "wall_s": round(wall, 2), "violations": nviol}
 
 
 def main(argv):
